@@ -15,8 +15,10 @@ import (
 // arms again; a reader-role thread (the main loop's role) receives triggers; expiries are environment steps.
 func init() {
 	// operation sequences of the worker-role thread: A = arm, re-arm, stop, arm the next height;
-	// B = arm, stop, arm the SAME pair again; C = arm, arm the same pair (no-op), stop
-	for _, seq := range []string{"A", "B", "C"} {
+	// B = arm, stop, arm the SAME pair again; C = arm, arm the same pair (no-op), stop;
+	// D = arm, re-arm a higher view, arm that view AGAIN (what a node does that timed out into view v and then
+	// receives the NEW_VIEW of v: the repeat must be a no-op, whatever happened to the first pair); E = the same after a Stop
+	for _, seq := range []string{"A", "B", "C", "D", "E"} {
 		for _, r := range []int{0, 1, 3} {
 			r, seq := r, seq
 			name := fmt.Sprintf("S-trigger-%s-r%d", seq, r)
@@ -111,6 +113,20 @@ func sTrigger(x *X, maxReads int, seq string) {
 			arm(1, 0)
 			vs.CtxPoint()
 			stop()
+		case "D":
+			arm(1, 0)
+			vs.CtxPoint()
+			arm(1, 1)
+			vs.CtxPoint()
+			arm(1, 1)
+		case "E":
+			arm(1, 0)
+			vs.CtxPoint()
+			stop()
+			vs.CtxPoint()
+			arm(1, 1)
+			vs.CtxPoint()
+			arm(1, 1)
 		}
 		workerDone = true
 	})
